@@ -114,7 +114,48 @@ def oracle(ctx: Ctx, case):
         dbx.discard_backend(backend)
 
 
+@st.composite
+def catch_ctx_cases(draw):
+    """The same catch(...) expression evaluated in two or three executions on one backend, each under
+    its own run context; the guarded task reads the context and fails for some values of it."""
+    bad = draw(st.integers(1, 2))
+    body = ["list", [["getctx", "a", 0], ["cond", [["op", "eq", ["getctx", "a", 0], ["lit", ["int", bad]]],
+                                                   ["throw", "ValueError", "e1"], ["lit", ["int", 0]]]]]]
+    prog = ["list", [["catch", ["task", body, {}, {}], ["ValueError"], ["list", [["lit", ["int", -1]], ["getctx", "a", 0]]], {}]]]
+    ctxs = draw(st.lists(st.sampled_from([{}, {"a": 1}, {"a": 2}, {"a": 3}]), min_size=2, max_size=3))
+    return {"family": "catch-ctx", "prog": prog, "runctxs": ctxs, "bad": bad}
+
+
+def catch_ctx_oracle(ctx: Ctx, case) -> None:
+    backend = dbx.fresh_backend()
+    try:
+        seen_recover = False
+        for i, rc in enumerate(case["runctxs"]):
+            exp = P.reference(case["prog"], context=rc)
+            r = schedrun.run_program(case["prog"], decisions=[], backend=backend, run_kwargs={"context": rc})
+            if r.kind in ("quiescent", "budget"):
+                raise Violation("stuck", f"did not terminate: {r.payload}", case)
+            if not P.outcome_in(r.kind, r.payload, exp):
+                if seen_recover and r.kind == "ok" and r.payload and r.payload[0][0] == -1:
+                    raise Violation("context-result-shared:catch-recovery",
+                                    f"execution {i} under run context {rc}: got {r.payload!r}, expected {exp.oks[:1]!r}: catch() "
+                                    f"replayed the recovery it had cached under another context (earlier contexts "
+                                    f"{case['runctxs'][:i]})", case)
+                raise Violation("context-result-shared:catch", f"execution {i} under run context {rc}: got {r.kind} {r.payload!r}, "
+                                f"expected {exp.oks[:1]!r}", case)
+            if rc.get("a", 0) == case["bad"]:
+                seen_recover = True
+    finally:
+        dbx.discard_backend(backend)
+
+
 def run_case(ctx: Ctx, case) -> None:
+    if case.get("family") == "catch-ctx":
+        try:
+            catch_ctx_oracle(ctx, case)
+        finally:
+            ctx.case(case, labels=["family:catch-ctx"], nontrivial=len({json_key(c) for c in case["runctxs"]}) >= 2)
+        return
     try:
         oracle(ctx, case)
     finally:
@@ -124,11 +165,21 @@ def run_case(ctx: Ctx, case) -> None:
                  nontrivial=after and not (case["root"] or case["runctx"]))
 
 
+def json_key(c):
+    import json
+
+    return json.dumps(c, sort_keys=True)
+
+
 def check(ctx: Ctx) -> None:
     C.quiet_logs()
+    ctx.given(catch_ctx_cases(), lambda c: run_case(ctx, c), ctx.n(30, 600))
     ctx.given(cases(), lambda c: run_case(ctx, c), ctx.n(320, 6000))
 
 
 def replay(ctx: Ctx, case) -> None:
     C.quiet_logs()
+    if case.get("family") == "catch-ctx":
+        catch_ctx_oracle(ctx, case)
+        return
     oracle(ctx, case)
